@@ -72,7 +72,7 @@ def check_c05(tier):
         "SPECIFICATION Spec", "CONSTANTS", "  EndPoints = " + ends, "  Probes = " + probes,
         "  MaxSupported = 4",
         "INVARIANT RangeSemantics", "INVARIANT OverlapIffShared", "INVARIANT HeaderPolicyTotal",
-        "INVARIANT EmitVec", "CHECK_DEADLOCK FALSE", ""])
+        "INVARIANT SameAsUnbounded", "INVARIANT EmitVec", "CHECK_DEADLOCK FALSE", ""])
     res = vlib.run_tlc("C05-versions", "MC_Versions.tla", cfgname, workers=4, timeout=900,
                        extra_files={cfgname: cfg}, coverage=False)
     vlib.tlc_ok(res, "versions")
@@ -88,16 +88,19 @@ def check_c05(tier):
                 "shared": json.loads(r["_vector"])["shared"], "one_semver_chain": r.get("inst")}
                for r in results[len(results) // 2: len(results) // 2 + 3]]
     live = live_versions(findings, tier)
+    proof = vlib.run_tlapm("C05-proof", "VersionsProof.tla", ["VersionsUnbounded.tla"])
     rc = findings.report()
     vlib.write_evidence(
         "C05", tier, "model_checking",
-        {"states": res.distinct, "transitions": res.generated,
+        {"states": res.distinct, "unbounded_proof": proof, "transitions": res.generated,
          "traces_validated_against_impl": len(results) + live.get("requests", 0), "samples": samples,
          "exhaustive": True, "replay_mismatches": nm, "live_header_policy": live,
          "rule": "every ordered pair of ranges over the end-point grid is one TLC state (membership of every probe, "
                  "overlap = shared version, symmetric); each pair is replayed with several random semver chains "
                  "(pre-releases mixed in) through register / lookup_route / openapi in both registration orders"},
-        ["the integer grid represents the dense semver order (argument in MC_Versions.tla)",
+        ["the integer grid represents the dense semver order (argument in MC_Versions.tla); independently, tlapm proves "
+         "OverlapIffShared and MatchesIsMembership over all integers (spec/proofs/VersionsProof.tla) and TLC checks that "
+         "the proof's operators coincide with Versions.tla's on the grid (SameAsUnbounded)",
          "generated versions carry no build metadata (DESIGN section 8 rule 3)",
          "the harness orders versions with its own semver-precedence comparator"],
         time.time() - t0, len(findings.violations))
